@@ -37,4 +37,9 @@ func facts() {
 	headerDeletes("modifyResponseDeletes", []string{"C18"}, "internal/proxy/reverse_proxy.go")
 	skeletonFact("skel_proxy_requireHTTPS", []string{"C18"}, "internal/proxy/middleware.go", "", "requireHTTPS")
 	skeletonFact("skel_proxy_NewUpstreamReverseProxy", []string{"C18", "C03", "C12"}, "internal/proxy/reverse_proxy.go", "", "NewUpstreamReverseProxy")
+
+	stringSliceVar("signedHeaders", []string{"C12"}, "internal/proxy/request_signer.go", "signedHeaders")
+	stringSliceVar("signatureHeaders", []string{"C12"}, "internal/proxy/oauthproxy.go", "SignatureHeaders")
+	skeletonFact("skel_proxy_newSigningHandler", []string{"C12"}, "internal/proxy/reverse_proxy.go", "", "newSigningHandler")
+	skeletonFact("skel_proxy_mapRequestToHashInput", []string{"C12"}, "internal/proxy/request_signer.go", "", "mapRequestToHashInput")
 }
